@@ -155,6 +155,50 @@ def run(chk):
     reals.append(core.call_real(lambda: ds.nndist_hamming("AC", {"AC"}, maxdist=5)))
     meta.append((ops[-1], lambda v: v, "nndist"))
 
+    # histories on ONE reference object: queried, edited in place without changing its size, queried again - and a leave-one-out
+    # loop that builds a new same-size reference per step: every answer is that of the reference as it is at that moment
+    def hamd_(a_, b_):
+        return sum(x != y for x, y in zip(a_, b_)) if len(a_) == len(b_) else None
+    for _ in range(12 if not thorough else 100):
+        L_ = rng.randint(3, 5)
+        mk_ = lambda: "".join(rng.choice("ACD") for _ in range(L_))  # noqa: E731
+        refset = {mk_() for _ in range(rng.randint(2, 6))}
+        x = mk_()
+        md = rng.choice([2, 3, 4])
+        steps, okh = [], True
+        for step in range(4):
+            r_ = core.call_real(lambda: int(ds.nndist_hamming(x, refset, maxdist=md)))
+            ds_ = [d for d in (hamd_(x, y) for y in refset) if d is not None]
+            want = min([md] + ds_)
+            steps.append((sorted(refset), r_, want))
+            r1_ = core.call_real(lambda: bool(ds.isdist1(x, refset, ds.hamming_neighbors)))
+            if r_ != ("ok", want) or r1_ != ("ok", any(d == 1 for d in ds_)):
+                okh = False
+                break
+            # same object, same size, different content
+            if refset:
+                old_ = rng.choice(sorted(refset))
+                new_ = mk_()
+                if new_ not in refset:
+                    refset.remove(old_)
+                    refset.add(new_)
+        chk.case(nontrivial_key=("nndist-history", x, str(steps)[:200]))
+        chk.count("op:nndist_hamming-history")
+        if not okh:
+            chk.violation("C12|nndist_hamming|history-same-reference-object", f"nndist_hamming / isdist1 on a reference set edited in place (same object, "
+                          f"same size) gave {steps[-1][1]} where min(true nearest Hamming distance, maxdist) = {steps[-1][2]}",
+                          {"x": x, "maxdist": md, "steps": [[s_[0], str(s_[1]), s_[2]] for s_ in steps]})
+        # leave-one-out over a list: a fresh same-size set per step (object addresses get reused)
+        pool_ = [mk_() for _ in range(6)]
+        for i_ in range(len(pool_)):
+            loo = set(pool_[:i_] + pool_[i_ + 1:])
+            r_ = core.call_real(lambda: int(ds.nndist_hamming(pool_[i_], loo, maxdist=4)))
+            want = min([4] + [d for d in (hamd_(pool_[i_], y) for y in loo) if d is not None])
+            if r_ != ("ok", want):
+                chk.violation("C12|nndist_hamming|leave-one-out", f"nndist_hamming({pool_[i_]!r}, pool without it) = {r_}, expected {want} (leave-one-out loop, step {i_})",
+                              {"pool": pool_, "step": i_})
+                break
+            del loo
     # dense references: a sequence with more than 255 (and more than 65535 would need length > 1600) distance-1 partners present
     from Levenshtein import distance as _levd
     for ham in (False, True):
